@@ -663,6 +663,34 @@ def scripted_stream(ck, qr, numpy, m):
             ck.fail("raises:script:reentered-context-object", "raised %r" % (e,), inp)
         if not book_ok():
             ck.fail("script:reentered-context-object:bookkeeping", "bookkeeping not restored", inp); reset_book()
+    # ---- a Hamiltonian that carries couplings split off by a cut-off (the remainder JR): strong part and remainder are presented in the same
+    # basis inside a context, and couplings recovered inside the context are back where they were after it ------------------------------
+    for variant in ("look", "recover-inside"):
+        hd = numpy.array([[0.0, 0.0, 0.0, 0.0], [0.0, 2.0, 0.5, 0.02], [0.0, 0.5, 2.5, -0.03], [0.0, 0.02, -0.03, 3.25]])
+        c1 = SelfAdjointOperator(data=numpy.array([[0.0, 0.0, 0.0, 0.0], [0.0, 1.0, 0.25, -0.5], [0.0, 0.25, 2.0, 0.75], [0.0, -0.5, 0.75, 3.5]]))
+        inp = {"script": "H.remove_cutoff_coupling(0.1); with eigenbasis_of(other): H.data + H.JR%s" % ("; H.recover_cutoff_coupling()" if variant != "look" else "")}
+        ck.case(("script-remainder-coupling", variant), nontrivial=True, kind="scripted", cls="Hamiltonian", nesting=1)
+        try:
+            Hr = Hamiltonian(data=hd.copy())
+            Hr.remove_cutoff_coupling(0.1)
+            with eigenbasis_of(c1):
+                S = numpy.array(m.basis_transformations[-1], dtype=float)
+                full_in = numpy.array(Hr.data) + numpy.array(Hr.JR)
+                if variant != "look":
+                    Hr.recover_cutoff_coupling()
+            dv_in = float(numpy.abs(full_in - S.T @ hd @ S).max())
+            if dv_in > 1e-9:
+                ck.fail("script:remainder-coupling:inside", "inside a context the strong part of a Hamiltonian and the couplings split off by a cut-off are not presented "
+                        "in the same basis (their sum is not the Hamiltonian in that basis)", inp, dv_in)
+            full_out = numpy.array(Hr._data) + (numpy.array(Hr.JR) if variant == "look" else 0.0)
+            dv_out = float(numpy.abs(full_out - hd).max())
+            if dv_out > 1e-9:
+                ck.fail("script:remainder-coupling:restore", "after the context the Hamiltonian (with its remainder couplings) is not back in its original representation",
+                        inp, dv_out)
+        except Exception as e:
+            ck.fail("raises:script:remainder-coupling", "raised %r" % (e,), inp)
+        if not book_ok():
+            ck.fail("script:remainder-coupling:bookkeeping", "bookkeeping not restored", inp); reset_book()
     # ---- a state vector created inside a context: given in the context's basis, expressed in the original one after the context is left ------
     from quantarhei import StateVector
     for variant in ("data", "dim"):
